@@ -460,3 +460,17 @@ package pilosa
 //@   modifies nothing
 //@   loop 1 invariant 0 <= $i + 1 && $i + 1 <= len(c.nodes) && (forall k :: 0 <= k && k <= $i ==> c.nodes[k].ID != id)
 //@   loop 1 decreases len(c.nodes) - $i
+
+// ---- C17: the nodes a failed shard group is re-mapped over -------------------------
+
+// Nodes.Filter: exactly the nodes other than n.  When a node fails during a distributed
+// query the executor re-maps that node's shards over this list, so a surviving node
+// missing from it (or the failed node kept in it) changes where shards are computed.
+//@ contract (Nodes).Filter props C17
+//@   ensures forall k :: 0 <= k && k < len(result) ==> (exists i :: 0 <= i && i < len(a) && a[i] == result[k] && a[i] != n)
+//@   ensures forall i :: 0 <= i && i < len(a) && a[i] != n ==> (exists k :: 0 <= k && k < len(result) && result[k] == a[i])
+//@   ensures len(result) <= len(a)
+//@   loop 1 invariant 0 <= $i + 1 && $i + 1 <= len(a) && len(other) <= $i + 1 && (cap(other) == 0 || fresh(other)) && unchanged(a)
+//@   loop 1 invariant forall k :: 0 <= k && k < len(other) ==> (exists i :: 0 <= i && i <= $i && a[i] == other[k] && a[i] != n)
+//@   loop 1 invariant forall i :: 0 <= i && i <= $i && a[i] != n ==> (exists k :: 0 <= k && k < len(other) && other[k] == a[i])
+//@   loop 1 decreases len(a) - $i
